@@ -42,12 +42,39 @@ func parserInputs(o *propOpts, each func(e *entry, s string, origin string)) {
 			each(e, s, "graft-systematic")
 		}
 	})
+	// systematic single-token edits of the golden inputs: at every token position delete the token, or insert a number, a comma,
+	// an identifier or a closing parenthesis before it (the error stream with exactly one fault, at every place of every construct)
+	files := corpusFiles()
+	edits := 0
+	for _, cf := range files {
+		if cf.Bad {
+			continue
+		}
+		toks, ok := tokenSpans(cf.Text)
+		if !ok {
+			continue
+		}
+		e := entryByName(entryForDir(cf.Dir))
+		for i := 0; i+1 < len(toks); i++ {
+			t := toks[i]
+			for k, ins := range singleEdits {
+				edits++
+				if o.tier != "thorough" && edits%4 != int(o.seed%4) {
+					continue
+				}
+				if k == 0 {
+					each(e, cf.Text[:t.Pos]+cf.Text[t.End:], "edit-delete")
+				} else {
+					each(e, cf.Text[:t.Pos]+ins+" "+cf.Text[t.Pos:], "edit-insert")
+				}
+			}
+		}
+	}
 	nmut := 15000
 	if o.tier == "thorough" {
 		nmut = 120000
 	}
 	r := &rng{s: o.seed}
-	files := corpusFiles()
 	for i := 0; i < nmut; i++ {
 		cf := files[r.intn(len(files))]
 		s := cf.Text
@@ -121,5 +148,7 @@ var probes = []struct{ entry, text string }{
 	{"ParseStatement", "CALL p(1, TABLE t, MODEL m)"}, {"ParseStatements", "SELECT 1,; SELECT 2"}, {"ParseStatements", ";;SELECT 1;; SELECT 2;"},
 	{"ParseStatements", "SELECT 1; /*c*/"}, {"ParseStatements", "SELECT 1; \x00; SELECT 2"}, {"ParseStatement", "a/*c*/b +"}, {"ParseStatement", "@{a=1} CREATE TABLE t (a INT64) PRIMARY KEY (a)"},
 }
+
+var singleEdits = []string{"", "3", ",", "x", ")"}
 
 func r0(seed uint64) *rng { return &rng{s: seed ^ 0x5bd1e995} }
